@@ -355,7 +355,7 @@ def rule_T9_hp(tree: Tree) -> RuleResult:
     masks = {}
     for n in cfg.nodes:
         if n.kind == "stmt" and isinstance(n.ast, ast.Assign) and dotted(n.ast.targets[0]) == "first_packet_byte":
-            hexes = [try_fold(c) for c in ast.walk(n.ast.value) if isinstance(c, ast.Call) and (dotted(c.func) or "").endswith("fromhex")]
+            hexes = [try_fold(c) for c in ast.walk(n.ast.value) if (isinstance(c, ast.Call) and (dotted(c.func) or "").endswith("fromhex")) or (isinstance(c, ast.Constant) and isinstance(c.value, bytes))]
             form = "LONG" if fact_holds(cfg.facts_at(n.id), "header_type == QuicHeaderType.LONG", True) else "SHORT" if fact_holds(cfg.facts_at(n.id), "header_type == QuicHeaderType.LONG", False) else "?"
             masks[form] = hexes
             uses_mask0 = "mask[0]" in src(n.ast.value)
